@@ -116,6 +116,12 @@ MISSED_AT_FIRST = {
     'C15-10': 'missed: conflicting _value declarations were scalars; dictionary values where one is a strict superset of the other added (both listing orders)',
     'C16-10': 'missed: every override named one process; an override naming three processes, the one inside a nested compartment first',
     'C18-10': 'caught by C14 at first, not by C18: no emitted sequence mixed plain numbers and quantities',
+    'C01-11': 'caught by C08 at first, not by C01: no dictionary-valued variable was reached through two ports; the pair processes now also send different key sets to one variable with a per-key adding updater',
+    'C02-11': 'written for C03 (C03k): the clock, landing, termination and grid clauses of C03 still hold with it (the author says so too); what it breaks is C02 (a parallel process asked for its timestep once only) - filed under C02, caught there at first attempt',
+    'C07-11': 'missed: every _move named its source by one key; family deepmove (cells moved by a two-key source path into a store without a sub-schema, under a glob viewer declaring a variable of its own)',
+    'C09-11': 'caught by C11 at first, not by C09: explicit daughter states named scalars at depth 2 only; family divide_override (dictionary-valued variables at depth 1-3)',
+    'C13-11': 'missed by chance (4 copy-divide cases, none with the mother\'s update due in the same batch after the division): every 32nd case is now a copy-divide of a busy mother with the director listed first',
+    'C15-11': 'missed: serializer conflicts were tried on plain variables only; three forms of a variable with units (quantity default, _units, units from one declarer) added',
     'C19-10': 'caught by C08 at first, not by C19: every driven variable was declared with the set updater; some now declare accumulate / nonnegative_accumulate',
     'C19-4': 'missed: one update() whose length is a multiple of the timestep; a third of the cases now make 2-4 update() calls that cut ticks short',
 }
